@@ -36,7 +36,7 @@ Print Assumptions C16_framing.
 (* HPACK.  The decoder model inverts every RFC 7541 encoding of a header list: any mix of indexed
    fields, literals with incremental indexing / without indexing / never indexed, indexed or literal
    names, plain or Huffman strings, references into the dynamic table as the encoder's own table
-   (insertion, eviction, size updates) defines them — unless static index 15 is referenced (K2). *)
+   (insertion, eviction, size updates) defines them — unless static index 15 is referenced (known class k_static15). *)
 Theorem C16_hpack_roundtrip :
   forall items : list item,
     items_ok items = true -> k_static15 items = false ->
@@ -64,14 +64,15 @@ Print Assumptions C16_huffman_code_is_complete_prefix_code.
    block of a well-formed request header list in any HPACK encoding and any framing, frames of other
    streams) the report — method, path, authority, scheme, ordered header list with positions,
    cookies, referer, user agent, the Accept-Language value handed to the language chooser, p0f-style
-   signature — is exactly the one the specification derives from the header list; outside the two
-   known classes (K1 p0f lists never applied; K2 static index 15). *)
+   signature — is exactly the one the specification derives from the header list; outside the one
+   known class k_static15 (the crate's static table entry 15).  The p0f header lists are applied
+   case-insensitively (fix 229155b). *)
 Theorem C16_request :
   forall (ctl trail : list (bool * frame)) (sid : N) (fr : framing) (frags : list bytes) (items : list item),
     forallb (ctl_ok sid) ctl = true -> forallb (trail_ok sid) trail = true ->
     framing_ok fr frags = true -> 0 < sid /\ sid < 2 ^ 31 ->
     concat frags = hpack_encode items -> items_ok items = true -> k_static15 items = false ->
-    wf_request (headers_of items) = true -> k_lists true (headers_of items) = false ->
+    wf_request (headers_of items) = true ->
     exists v, spec_request (headers_of items) = Some v /\
               analyse_request (connection_bytes true ctl sid fr frags trail) = POk v.
 Proof. exact request_statement. Qed.
@@ -80,7 +81,7 @@ Check C16_request :
     forallb (ctl_ok sid) ctl = true -> forallb (trail_ok sid) trail = true ->
     framing_ok fr frags = true -> 0 < sid /\ sid < 2 ^ 31 ->
     concat frags = hpack_encode items -> items_ok items = true -> k_static15 items = false ->
-    wf_request (headers_of items) = true -> k_lists true (headers_of items) = false ->
+    wf_request (headers_of items) = true ->
     exists v, spec_request (headers_of items) = Some v /\
               analyse_request (connection_bytes true ctl sid fr frags trail) = POk v.
 Print Assumptions C16_request.
@@ -88,7 +89,7 @@ Print Assumptions C16_request.
 Example C16_request_hyps_satisfiable :
   forallb (ctl_ok 3) ex_ctl = true /\ framing_ok ex_framing ex_frags = true /\
   concat ex_frags = hpack_encode ex_items /\ items_ok ex_items = true /\ k_static15 ex_items = false /\
-  wf_request (headers_of ex_items) = true /\ k_lists true (headers_of ex_items) = false /\
+  wf_request (headers_of ex_items) = true /\
   option_map v_signature (spec_request (headers_of ex_items))
   = Some (bs "2:x-custom=[1],x-custom=[1],accept-language=[de, en;q=0.5]:Host,User-Agent,Connection,Accept,Accept-Encoding,Accept-Charset,Keep-Alive:???").
 Proof. vm_compute. repeat split; reflexivity. Qed.
@@ -99,7 +100,7 @@ Theorem C16_response :
     forallb (ctl_ok sid) ctl = true -> forallb (trail_ok sid) trail = true ->
     framing_ok fr frags = true -> 0 < sid /\ sid < 2 ^ 31 ->
     concat frags = hpack_encode items -> items_ok items = true -> k_static15 items = false ->
-    wf_response (headers_of items) = true -> k_lists false (headers_of items) = false ->
+    wf_response (headers_of items) = true ->
     exists w, spec_response (headers_of items) = Some w /\
               analyse_response (connection_bytes false ctl sid fr frags trail) = POk w.
 Proof. exact response_statement. Qed.
@@ -108,7 +109,7 @@ Check C16_response :
     forallb (ctl_ok sid) ctl = true -> forallb (trail_ok sid) trail = true ->
     framing_ok fr frags = true -> 0 < sid /\ sid < 2 ^ 31 ->
     concat frags = hpack_encode items -> items_ok items = true -> k_static15 items = false ->
-    wf_response (headers_of items) = true -> k_lists false (headers_of items) = false ->
+    wf_response (headers_of items) = true ->
     exists w, spec_response (headers_of items) = Some w /\
               analyse_response (connection_bytes false ctl sid fr frags trail) = POk w.
 Print Assumptions C16_response.
@@ -119,19 +120,11 @@ Theorem C16_decoder_total :
 Proof. intros block. split; [apply hpack_decode_no_panic|apply hpack_decode_fuel]. Qed.
 Print Assumptions C16_decoder_total.
 
-(* Known defect classes (open findings), each inhabited by a valid request on which the report differs
+(* Known defect class (open finding), inhabited by a valid request on which the report differs
    from the specification; and the crate's static table differs from RFC 7541 exactly at index 15. *)
-Theorem C16_known_p0f_lists_refuted :
-  exists items,
-    items_ok items = true /\ wf_request (headers_of items) = true /\ k_static15 items = false /\
-    k_lists true (headers_of items) = true /\
-    exists v, spec_request (headers_of items) = Some v /\ analyse_request (one_frame_request items) <> POk v.
-Proof. exact Known_lists_refuted. Qed.
-Print Assumptions C16_known_p0f_lists_refuted.
 Theorem C16_known_static15_refuted :
   exists items,
-    items_ok items = true /\ wf_request (headers_of items) = true /\ k_lists true (headers_of items) = false /\
-    k_static15 items = true /\
+    items_ok items = true /\ wf_request (headers_of items) = true /\ k_static15 items = true /\
     exists v, spec_request (headers_of items) = Some v /\ analyse_request (one_frame_request items) <> POk v.
 Proof. exact Known_static15_refuted. Qed.
 Print Assumptions C16_known_static15_refuted.
